@@ -216,6 +216,58 @@ static void c12Sections(W& w)
         }
 }
 
+// C12 for the library's NAMED constants: users write Flags::crcErr or PayloadType::can, never 0x0001 or 0x0101, so the numeric value
+// behind each name is part of the wire layout. Expected values are stated here from the protocol tables (ASAM CMP message / payload
+// types and flag bits, TECMP message / data types), independently of the headers.
+static void c12Constants(W& w)
+{
+    struct K { const char* name; uint64_t got, want; };
+    using CF = A::CanPayloadBase::Flags;
+    using EF = A::EthernetPayload::Flags;
+    using LF = A::LinPayload::Flags;
+    using MF = A::MessageHeader::CommonFlags;
+    using ST = A::MessageHeader::SegmentType;
+    using MT = A::CmpHeader::MessageType;
+    using IS = A::InterfacePayload::InterfaceStatus;
+    using PT = A::PayloadType;
+    using TM = TECMP::CmpHeader::MessageType;
+    using TD = TECMP::CmpHeader::DataType;
+    using TP = TECMP::PayloadType;
+#define KC(e, v) {#e, (uint64_t) (e), (uint64_t) (v)}
+    const std::vector<K> ks = {
+        KC(CF::crcErr, 1u << 0), KC(CF::ackErr, 1u << 1), KC(CF::passiveAckErr, 1u << 2), KC(CF::activeAckErr, 1u << 3), KC(CF::ackDelErr, 1u << 4), KC(CF::formErr, 1u << 5),
+        KC(CF::stuffErr, 1u << 6), KC(CF::crcDelErr, 1u << 7), KC(CF::eofErr, 1u << 8), KC(CF::bitErr, 1u << 9), KC(CF::r0, 1u << 10), KC(CF::rsvd, 1u << 10), KC(CF::srrDom, 1u << 11),
+        KC(CF::brs, 1u << 12), KC(CF::esi, 1u << 13),
+        KC(EF::fcsErr, 1u << 0), KC(EF::frameShorterThan64b, 1u << 1), KC(EF::txPortDown, 1u << 2), KC(EF::collision, 1u << 3), KC(EF::frameTooLongErr, 1u << 4), KC(EF::phyErr, 1u << 5),
+        KC(EF::frameTruncated, 1u << 6), KC(EF::fcsSupport, 1u << 7),
+        KC(LF::checksumErr, 1u << 0), KC(LF::collisionErr, 1u << 1), KC(LF::parityErr, 1u << 2), KC(LF::noSlaveRespErr, 1u << 3), KC(LF::syncErr, 1u << 4), KC(LF::framingErr, 1u << 5),
+        KC(LF::shortDomErr, 1u << 6), KC(LF::longDomErr, 1u << 7), KC(LF::wup, 1u << 8),
+        KC(MF::recalc, 0x01), KC(MF::insync, 0x02), KC(MF::seg, 0x0C), KC(MF::diOnIf, 0x10), KC(MF::overflow, 0x20), KC(MF::errorInPayload, 0x40),
+        KC(ST::unsegmented, 0x00), KC(ST::firstSegment, 0x04), KC(ST::intermediarySegment, 0x08), KC(ST::lastSegment, 0x0C),
+        KC(MT::undefined, 0), KC(MT::data, 1), KC(MT::control, 2), KC(MT::status, 3), KC(MT::vendor, 0xFF),
+        KC(IS::linkStatusDown, 0), KC(IS::linkStatusUp, 1), KC(IS::disabled, 2),
+        KC(PT::invalid, 0), KC(PT::can, 0x0101), KC(PT::canFd, 0x0102), KC(PT::lin, 0x0103), KC(PT::flexRay, 0x0104), KC(PT::digital, 0x0105), KC(PT::uartRs232, 0x0106),
+        KC(PT::analog, 0x0107), KC(PT::ethernet, 0x0108), KC(PT::spi, 0x0109), KC(PT::i2c, 0x010A), KC(PT::gigeVision, 0x010B), KC(PT::mipiCsi2dPhy, 0x010C), KC(PT::userDefined, 0x01FF),
+        KC(PT::cmStatMsg, 0x0301), KC(PT::ifStatMsg, 0x0302), KC(PT::confStatMsg, 0x0303), KC(PT::dleStatMsg, 0x0304), KC(PT::tsleStatMsg, 0x0305), KC(PT::vendorStatMsg, 0x03FF),
+        KC(TM::control, 0x00), KC(TM::cmStatus, 0x01), KC(TM::busStatus, 0x02), KC(TM::data, 0x03), KC(TM::configStatus, 0x04), KC(TM::replayData, 0x0A),
+        KC(TD::can, 0x02), KC(TD::canFd, 0x03), KC(TD::lin, 0x04), KC(TD::flexRay, 0x08), KC(TD::uartRs232, 0x10), KC(TD::analog, 0x20), KC(TD::ethernet, 0x80),
+        KC(TP::control, 0x0000), KC(TP::cmStatMsg, 0x0100), KC(TP::ifStatMsg, 0x0200), KC(TP::confStatMsg, 0x0400), KC(TP::can, 0x0302), KC(TP::canFd, 0x0303), KC(TP::lin, 0x0304),
+        KC(TP::flexRay, 0x0308), KC(TP::uartRs232, 0x0310), KC(TP::analog, 0x0320), KC(TP::ethernet, 0x0380),
+    };
+#undef KC
+    for (auto& k : ks)
+    {
+        auto desc = [&] { return std::string("k=c12const;n=") + k.name; };
+        if (!w.begin_case(desc))
+            continue;
+        if (k.got != k.want)
+            w.fail("layout:named-constant-differs-from-protocol-value", ofmt("%s is 0x%llx, the protocol assigns 0x%llx", k.name, (unsigned long long) k.got, (unsigned long long) k.want));
+        w.add(mc::C_TRACES, 1);
+        w.add(mc::C_TRANS, 1);
+        w.outcome(mc::mix(mc::fnv_s(k.name), k.got));
+    }
+}
+
 // C12 for Packet: the two serialisers against hand-laid-out images
 static void c12Packet(W& w)
 {
@@ -431,6 +483,11 @@ int main(int argc, char** argv)
                 c12Sections(w);
                 return;
             }
+            if (kv["k"] == "c12const")
+            {
+                c12Constants(w);
+                return;
+            }
             if (kv["k"] == "c11mask")
             {
                 // cheap: re-run the whole mask sweep of that class
@@ -483,6 +540,7 @@ int main(int argc, char** argv)
             run.round("class level: default images, reserved bits, header sizes", classes.size(), [&](W& w, uint64_t o) { classes[o].runClass(w); });
             run.round("Packet serialisers against hand-laid-out images", 1, [&](W& w, uint64_t) { c12Packet(w); });
             run.round("derived TECMP accessors (voltage, version strings) and TECMP::LinPayload::setData", 1, [&](W& w, uint64_t) { c12TecmpDerived(w); });
+            run.round("named constants (flag bits, message / payload / data types) against the protocol tables", 1, [&](W& w, uint64_t) { c12Constants(w); });
             run.round("variable-length sections of the capture-module / interface status payloads: hand-laid-out images read through the getters", 1, [&](W& w, uint64_t) { c12Sections(w); });
         }
         (void) thorough;
